@@ -25,6 +25,7 @@
     | transient stores (evm, feemarket, params)| reset at Commit                             | empty at every block boundary on both nodes |
     | tpsCounter                              | DeliverTx increments, goroutine logs        | never read by the state machine             |
     | upgrade-info.json under the node home   | written by the upgrade module before a halt | on disk but outside the database: part of what a restart keeps |
+    | package-level variables of the PROCESS (go-ethereum common.Big1 / Big0 ..., sync.Once latches, init-time registries of the imported packages) | process start; must never be written afterwards | not part of [mem]: App/ProcRestartModel.v makes them a third component [proc] that a real restart resets and an in-process re-open keeps ([continuation_is_function_of_db_and_blocks]; if a step reads it: [shared_one_breaks_process_restart_refuted]) |
 
     This file: executable definitions and the theorems (the model is small). *)
 From Coq Require Import ZArith NArith List Bool Lia.
